@@ -303,7 +303,10 @@ pub fn authorised(c: &Chain, sender: Id, target: Id, call: &Call) -> Option<bool
             let st = c.stores.get(&REWARD)?;
             let cfg = basset_sei_reward::state::read_config(st).ok()?;
             let no = basset_sei_reward::state::read_new_owner(st).ok()?;
-            let hc = hub_cfg;
+            // the hub this contract is configured with (not necessarily the system's hub: the owner
+            // can re-point it); if that address does not answer a Config query nobody is a principal
+            let rhub = hum(&cfg.hub_contract);
+            let hc: Option<basset::hub::ConfigResponse> = if rhub == HUB { hub_cfg } else { c.q(rhub, &basset::hub::QueryMsg::Config {}).ok() };
             match m {
                 RewMsg::UConfig(..) | RewMsg::SetOwner(..) | RewMsg::USwapDenom(..) => Some(sender == hum(&cfg.owner)),
                 RewMsg::Accept => Some(sender == hum(&no.new_owner_addr)),
@@ -357,6 +360,8 @@ pub struct StepCtx<'a> {
     pub deep: bool,
     /// what the reward contract should have on record according to the bank history (C15)
     pub ghost_recorded: Option<u128>,
+    /// when the chain pays each closed batch, from the history of operations (None: E2 left)
+    pub ghost_completion: Option<&'a BTreeMap<u64, u64>>,
 }
 
 pub fn check_step(cx: &StepCtx) -> Vec<Violation> {
@@ -1425,6 +1430,56 @@ fn c09_deep(cx: &StepCtx, out: &mut Vec<Violation>) {
                     }
                 }
                 None => continue,
+            }
+        }
+        // (b) at the first maturity: the moment the chain pays the oldest in-flight batch holding a
+        // request of this user — younger batches are still unbonding. What has matured by then
+        // (by the chain's clock, from the history of operations) must be withdrawable in full:
+        // nothing was slashed on this clone, so a claim worth >= 1 unit more than rounding must
+        // be accepted and paid.
+        if let Some(gc) = cx.ghost_completion {
+            let c1 = c2.clone();
+            let s1 = snap(&c1);
+            let oldest = rs.iter().filter_map(|(b, _, _)| s1.hist.iter().find(|h| h.id == *b && !h.released).and_then(|_| gc.get(b).map(|t| (*t, *b)))).min();
+            if let (Some((t_first, _)), true) = (oldest, s1.unbonding == c1.unbonding_time && !s1.paused) {
+                let mut c1 = c1;
+                if t_first > c1.time {
+                    c1.advance(t_first - c1.time);
+                }
+                let p1 = snap(&c1);
+                let matured: Vec<&HistView> = p1.hist.iter().filter(|h| !h.released && gc.get(&h.id).map(|t| *t <= c1.time).unwrap_or(false)).collect();
+                // every unreleased batch must be known to the ghost (else stay silent)
+                let all_known = p1.hist.iter().filter(|h| !h.released).all(|h| gc.contains_key(&h.id));
+                let expected: u128 = matured.iter().map(|h| floor_mul(h.b_amt, h.b_applied) + floor_mul(h.s_amt, h.s_applied)).sum();
+                let arrived = p1.hub_bank.saturating_sub(p1.raw[5]);
+                let mut est: u128 = 0;
+                let mut k: u128 = 1;
+                for (b, ba, sa) in rs.iter() {
+                    if let Some(h) = p1.hist.iter().find(|h| h.id == *b) {
+                        if h.released {
+                            est += floor_mul(*ba, h.b_withdraw) + floor_mul(*sa, h.s_withdraw);
+                            k += 1;
+                        } else if matured.iter().any(|m| m.id == *b) {
+                            est += floor_mul(*ba, h.b_applied) + floor_mul(*sa, h.s_applied);
+                            k += 1;
+                        }
+                    }
+                }
+                // only the unslashed case is judged here (arrivals cover what matured)
+                if all_known && arrived >= expected && est > 5 * k + 2 * (matured.len() as u128) {
+                    let due = est - 5 * k - 2 * (matured.len() as u128);
+                    let op = Op::Tx { sender: *u, target: HUB, call: Call::Hub(HubMsg::Withdraw), funds: vec![] };
+                    let before = c1.bal(*u, 0);
+                    let r = c1.apply(&op);
+                    if !r.ok {
+                        out.push(v("C09", "matured-withdraw-failed:first-maturity", format!("withdraw by {} at the maturity of its oldest batch fails with {} due: {}", u, due, r.err.replace('"', "'"))));
+                    } else {
+                        let got = c1.bal(*u, 0).saturating_sub(before);
+                        if got < due {
+                            out.push(v("C09", "matured-claim-underpaid:first-maturity", format!("withdraw by {} at the maturity of its oldest batch paid {} of at least {} due (nothing was slashed)", u, got, due)));
+                        }
+                    }
+                }
             }
         }
         c2.advance(post.unbonding.max(c2.unbonding_time) + 1);
